@@ -28,8 +28,14 @@ def jobs(tier):
         for op in ("next_chunk", "get_byte", "get_string", "get_short", "slice_default", "mode_off"):
             js.append(dict(name=f"step-blind[n={n},{op}]", fn="step", args=[n, op, True], collect_models=1,
                            expect=["post-state: position equals the model's"]))
+    # the other documented container kinds of the constructor argument
+    for kind in ("bytearray", "memoryview"):
+        for n in ((2,) if q else (1, 2, 3)):
+            for op in OPS:
+                js.append(dict(name=f"step-{kind}[n={n},{op}]", fn="step", args=[n, op, False, kind], collect_models=1, max_violations=1,
+                               expect=["post-state: position equals the model's"]))
     # size thresholds (seed C06h: a widening-window scan that skips offsets 64..127): long chunks, all bytes symbolic
-    for n, lo in ([(72, 60), (136, 120)] if q else [(40, 0), (72, 0), (72, 60), (136, 60), (136, 120), (200, 120), (264, 250), (400, 380), (520, 500)]):
+    for n, lo in ([(72, 60), (136, 120), (264, 250), (520, 506)] if q else [(40, 0), (72, 0), (72, 60), (136, 60), (136, 120), (200, 120), (264, 250), (400, 380), (520, 500), (1030, 1020), (2056, 2044)]):
         js.append(dict(name=f"long[n={n},first break>={lo}]", fn="long_chunks", args=[n, lo], collect_models=1,
                        expect=["long: second chunk: position equals the model's"]))
     hn, depth = (2, 2) if q else (3, 3)
